@@ -108,7 +108,9 @@ def canonical(bs: List[int], addr: int) -> bool:
             if getattr(ins, "opcode", None) == 0x11 and ((o.reg_raw & 7) < 4 or (o.reg_raw >> 4)):
                 return False          # JP r3: a pointer register, no mode bits
         if hasattr(o, "extra_hi") and isinstance(getattr(o, "extra_hi"), int):
-            if o.extra_hi & 0xF0:
+            # the high nibble of a 20-bit *immediate* is a don't-care (both decoders accept it and both cores must
+            # ignore it); in an absolute address it would name a location outside the 20-bit space
+            if (o.extra_hi & 0xF0) and tn != "Imm20":
                 return False
             if tn == "EMemAddr" and ((o.extra_hi << 16) | (o.value or 0)) > 0xFFFFC:
                 return False
